@@ -12,6 +12,10 @@ C17 through the plugin (pkg/v2/ocr.go, pkg/v2/observer/polling/observer.go aroun
   prescribes (`pout_eq_expOut`): `Observe()` returns exactly the staged ids whose lockout is not running — asked anew on
   every call, whatever was answered for the same head before; `Report()` checks exactly the observed keys whose lockout
   is not running; `ShouldTransmitAcceptedReport` is true iff a key of the report is accepted and without log.
+* A poll on which the log provider fails (error of any kind, or a panic contained by `safeCheckLogs`) leaves the
+  state of the logs `checkLogs` got through before the failure (`failedPoll_state`), and the timer is re-armed all the
+  same (`nextPoll_zero`): the model's poller asks its provider every cadence and therefore satisfies the regularity
+  clause "at least every 2 s" on every interval (`pollStats_regular`).
 * `pspec_model`: the plugin-level Spec predicate holds of the model's own answers for every input.
 -/
 namespace AutoVerif.C17
@@ -67,6 +71,9 @@ private theorem pstep_coord (cfg : Cfg) (ps : PState) (t : Nat) (pop : POp) :
   | observe => simp [pstep, flat, run, stageStep]
   | transmit ks => simp [pstep, flat, run, stageStep]
   | report b ids => simp [pstep, flat, run, stageStep]
+  | failedPoll w performs stales =>
+    refine ⟨?_, rfl⟩
+    cases w <;> simp [pstep, flat, failedOps, checkLogsFailing, checkLogs, run] <;> rfl
 
 /-- the coordinator after a plugin-level history is the coordinator after the flattened history -/
 theorem prun_coord_eq_run_flatten (cfg : Cfg) (ps : PState) (h : List (Nat × POp)) :
@@ -107,6 +114,7 @@ theorem pout_eq_expOut (cfg : Cfg) (pre : List (Nat × Op)) (st : Stage) (now : 
   cases pop with
   | co op => rfl
   | head b a e => rfl
+  | failedPoll w performs stales => rfl
   | acceptReport keys =>
     simp only [pout, expOut, (shouldAccept_eq_run cfg _ now keys).2]
   | observe =>
@@ -250,17 +258,44 @@ private theorem readsOk_model (cfg : Cfg) (h : List (Nat × POp)) (pre : List (N
       rw [this]
       exact ih _ _
 
+/-! ### failing log providers and the background poller -/
+
+/-- a poll on which `PerformLogs` fails changes nothing; one on which `StaleReportLogs` fails has processed exactly the
+    perform logs (and, if it returned logs with the error, those too) — in every case the history goes on from there -/
+theorem failedPoll_state (cfg : Cfg) (s : State) (now : Nat) (performs stales : List Log) (w : PollFail) :
+    checkLogsFailing cfg s now performs stales w = run cfg s ((failedOps w performs stales).map fun op => (now, op)) := by
+  cases w <;> simp [failedOps, checkLogsFailing, checkLogs, run] <;> rfl
+
+/-- the timer is re-armed after every poll, failed or not: with a provider that answers at once the next poll is one
+    cadence later -/
+theorem nextPoll_zero (t : Nat) : nextPoll t 0 = t + cadenceNs := by
+  simp [nextPoll, cadenceNs]
+
+/-- the poller of the model is regular on every interval -/
+theorem pollStats_regular (endT : Nat) : regular endT (pollStats endT) = true := by
+  unfold regular pollStats twoSeconds cadenceNs
+  by_cases h0 : endT / 1000000000 = 0
+  · simp only [h0, if_true, decide_eq_true_eq]; omega
+  · by_cases h2 : endT / 1000000000 < 2
+    · simp only [h0, h2, if_true, if_false, Bool.and_eq_true, decide_eq_true_eq]; omega
+    · simp only [h0, h2, if_false, Bool.and_eq_true, decide_eq_true_eq]; omega
+
+example : pollStats 5137000000 = { n := 5, first := 1000000000, last := 5000000000, maxGap := 1000000000 } ∧
+    regular 5137000000 { n := 2, first := 1000000000, last := 2000000000, maxGap := 1000000000 } = false := by decide
+
 /-- `pspec_model`: for every configuration, probes and executions through the plugin, the plugin-level C17
-    predicate evaluated on the model's own answers is true -/
-theorem pspec_model (cfg : Cfg) (probes ckeys : List Str) (runs : List PRun) :
+    predicate evaluated on the model's own answers (and the model's poller) is true -/
+theorem pspec_model (cfg : Cfg) (probes ckeys : List Str) (runs : List PRun) (ends : List Nat) :
     pspec cfg probes ckeys runs ((runs.map PRun.toRun).map (modelRun cfg probes ckeys))
-      (runs.map fun r => (pouts cfg PState.init r.ops).1) = true := by
+      (runs.map fun r => (pouts cfg PState.init r.ops).1) ends (ends.map pollStats) = true := by
   unfold pspec
-  rw [Bool.and_eq_true]
-  refine ⟨spec_model cfg probes ckeys _, ?_⟩
-  apply zipAll_map_self
-  intro r _
-  exact readsOk_model cfg r.ops [] Stage.init
+  rw [Bool.and_eq_true, Bool.and_eq_true]
+  refine ⟨⟨spec_model cfg probes ckeys _, ?_⟩, ?_⟩
+  · apply zipAll_map_self
+    intro r _
+    exact readsOk_model cfg r.ops [] Stage.init
+  · apply zipAll_map_self
+    intro e _
+    exact pollStats_regular e
 
 end AutoVerif.C17
-
